@@ -77,6 +77,7 @@ def run_case(seed, props):
             if not ent:
                 return ("dead", None)
             env.queue.remove(ent[0])
+            env._now = max(env._now, ent[0][0])       # time passes up to the event that is being processed
             before = len(env.queue)
             try:
                 v = p.gen.send(getattr(p, "_send", None))
@@ -183,6 +184,12 @@ def run_case(seed, props):
                     step_proc(dw)
                     guard += 1
                 r = step_proc(q)
+                guard = 0
+                while r[0] == "yield" and dw is not None and dw.triggered and guard < 4:
+                    # the body has ended but its recorded finish time is not reached yet: the poll re-arms
+                    # (changing nothing) until `now >= task.aft`
+                    r = step_proc(q)
+                    guard += 1
                 if r[0] == "raise":
                     impl_err = type(r[1]).__name__
                 elif r[0] == "done":
